@@ -935,7 +935,7 @@ def run(ctx):
     if part in (None, "ii"):
         ctx.pmap(shard_faults, fault_tasks(ctx.quick))
     if part in (None, "i"):
-        n = ctx.pick(150, 4000)
+        n = ctx.pick(150, 3000)
         ctx.pmap(shard_histories, [(ctx.shard_seed(i, "i"), n, i < 2) for i in range(16)])
     if part in (None, "iii"):
         ctx.pmap(shard_races, race_tasks(ctx.quick))
